@@ -17,6 +17,13 @@ PYDANTIC_RESERVED_FIELD_NAMES = [
 ]
 
 
+# isort decides whether an absolute import is first-party by looking for the module on
+# the filesystem below the current directory. Generated code must not depend on what
+# happens to be there (e.g. the target package itself exists only on regeneration),
+# so no source paths are searched: absolute imports are standard library or third party.
+ISORT_CONFIG = isort.Config(src_paths=())
+
+
 def ast_to_str(
     ast_obj: ast.AST,
     remove_unused_imports: bool = True,
@@ -30,7 +37,7 @@ def ast_to_str(
         code = fix_code(code, remove_all_unused_imports=True)
     if multiline_strings:
         code = format_multiline_strings(code, offset=multiline_strings_offset)
-    return format_str(isort.code(code), mode=Mode())
+    return format_str(isort.code(code, config=ISORT_CONFIG), mode=Mode())
 
 
 def remove_blank_line_between_class_and_content(code: str) -> str:
